@@ -13,25 +13,8 @@ the model cannot see object identity, the correspondence builds distinct objects
 -/
 namespace Pya
 
-mutual
-def Ty.hashEq : Ty → Ty → Bool
-  | .any, .any => true
-  | .known a, .known b => a.hashable && b.hashable && Obj.same a b
-  | .typed c, .typed d => c == d
-  | .newtype n c, .newtype m d => n == m && c == d
-  | .generic c as, .generic d bs => c == d && Ty.hashEqList as bs
-  | .seq c as, .seq d bs => c == d && Ty.hashEqList as bs
-  | .many a, .many b => Ty.hashEq a b
-  | .union as, .union bs => Ty.hashEqList as bs
-  | .subclass c, .subclass d => c == d
-  | .annotated a, .annotated b => Ty.hashEq a b
-  | .tvar i, .tvar j => i == j
-  | _, _ => false
-def Ty.hashEqList : List Ty → List Ty → Bool
-  | [], [] => true
-  | a :: as, b :: bs => Ty.hashEq a b && Ty.hashEqList as bs
-  | _, _ => false
-end
+/-! `Ty.hashEq` / `Ty.hashEqList` are defined in Core/Assign.lean (before `Ty.beq`, which looks union
+members up by hash). -/
 
 /-- `annotate_value(t, metadata)` for the single fixed metadata item of the model: an already
 annotated value keeps one (de-duplicated) metadata tuple. -/
